@@ -12,11 +12,17 @@ use crate::{
 };
 use tracing::{debug, trace, warn};
 
+#[cfg(not(feature = "verif-hooks"))]
 use instant::{Duration, Instant};
 use std::collections::vec_deque::Drain;
 use std::collections::VecDeque;
+#[cfg(not(feature = "verif-hooks"))]
 use std::collections::{BTreeMap, HashMap};
 use std::convert::TryInto;
+#[cfg(feature = "verif-hooks")]
+use {crate::verif::HashMap, std::collections::BTreeMap};
+#[cfg(feature = "verif-hooks")]
+use {crate::verif::Instant, instant::Duration};
 
 const RECOMMENDATION_INTERVAL: Frame = 60;
 const MIN_RECOMMENDATION: u32 = 3;
@@ -582,6 +588,8 @@ impl<T: Config> P2PSession<T> {
     }
 
     fn yield_lockstep_wait() {
+        #[cfg(feature = "verif-hooks")]
+        crate::verif::on_yield();
         #[cfg(not(target_arch = "wasm32"))]
         std::thread::yield_now();
     }
@@ -1246,6 +1254,76 @@ impl<T: Config> P2PSession<T> {
                 }
             }
             DesyncDetection::Off => (),
+        }
+    }
+}
+
+/// Read-only accessors for verification (feature `verif-hooks`).
+#[cfg(feature = "verif-hooks")]
+impl<T: Config> P2PSession<T> {
+    /// `(disconnected, last_frame)` this session holds for a player handle.
+    pub fn verif_connect_status(&self, player_handle: PlayerHandle) -> Option<(bool, Frame)> {
+        self.local_connect_status
+            .get(player_handle)
+            .map(|s| (s.disconnected, s.last_frame))
+    }
+
+    /// `(disconnected, last_frame)` that the endpoint serving `via_handle` last reported for `about_handle`.
+    pub fn verif_peer_connect_status(
+        &self,
+        via_handle: PlayerHandle,
+        about_handle: PlayerHandle,
+    ) -> Option<(bool, Frame)> {
+        if about_handle >= self.num_players {
+            return None;
+        }
+        match self.player_reg.handles.get(&via_handle)? {
+            PlayerType::Remote(addr) => {
+                let s = self
+                    .player_reg
+                    .remotes
+                    .get(addr)?
+                    .peer_connect_status(about_handle);
+                Some((s.disconnected, s.last_frame))
+            }
+            _ => None,
+        }
+    }
+
+    /// The sync layer's last confirmed and last saved frame.
+    pub fn verif_sync_frames(&self) -> (Frame, Frame) {
+        (
+            self.sync_layer.last_confirmed_frame(),
+            self.sync_layer.last_saved_frame(),
+        )
+    }
+
+    /// Sizes of all internal buffers.
+    pub fn verif_buffer_sizes(&self) -> crate::verif::BufferSizes {
+        let mut endpoints: Vec<(usize, crate::verif::EndpointSizes)> = self
+            .player_reg
+            .remotes
+            .values()
+            .chain(self.player_reg.spectators.values())
+            .map(|e| {
+                (
+                    e.handles().iter().copied().min().unwrap_or(usize::MAX),
+                    e.verif_sizes(),
+                )
+            })
+            .collect();
+        endpoints.sort_by_key(|(h, _)| *h);
+        crate::verif::BufferSizes {
+            event_queue: self.event_queue.len(),
+            pending_local_inputs: self.pending_local_inputs.len(),
+            outgoing_local_input_frames: self.outgoing_local_inputs.len(),
+            outgoing_local_input_entries: self
+                .outgoing_local_inputs
+                .values()
+                .map(|m| m.len())
+                .sum(),
+            local_checksum_history: self.local_checksum_history.len(),
+            endpoints,
         }
     }
 }
